@@ -61,6 +61,11 @@ func (k Keeper) IsProofSessionHeightWithinTolerance(ctx sdk.Ctx, relaySessionBlo
 	if relaySessionBlockHeight <= 0 {
 		return false
 	}
+	// Sessions start at heights 1, 1+blocksPerSession, 1+2*blocksPerSession, ... (see GetLatestSessionBlockHeight);
+	// any other height does not identify a session.
+	if (relaySessionBlockHeight-1)%k.posKeeper.BlocksPerSession(ctx) != 0 {
+		return false
+	}
 	latestSessionHeight := k.GetLatestSessionBlockHeight(ctx)
 	tolerance := types.GlobalPocketConfig.ClientSessionSyncAllowance * k.posKeeper.BlocksPerSession(ctx)
 	minHeight := latestSessionHeight - tolerance
